@@ -351,6 +351,35 @@ fn run_batch(cfg: &Value) -> Value {
     }
     #[cfg(feature = "model")]
     hook::configure(false, 0);
+    #[cfg(not(feature = "model"))]
+    if cfg["reference_prover"].as_bool().unwrap_or(false) {
+        // C19: proofs made by the independent straight-from-the-paper prover must be accepted by the library, masks recovered
+        let mut outv = Vec::new();
+        for (i, mem) in members.iter().enumerate() {
+            let vals: Vec<u64> = mem.info["values"].as_array().unwrap().iter().map(|v| v["v"].as_str().unwrap().parse::<u64>().unwrap()).collect();
+            let mut rng = SymRng::new("sym", &format!("refstream{}", i));
+            let rp = refimpl::reference_prove(&transcripts[i], &mem.statement, &vals, &mem.blindings, &mut rng);
+            let o = match rp {
+                None => json!({"reference_prove": "refused"}),
+                Some(bytes) => match RistrettoRangeProof::from_bytes(&bytes) {
+                    Err(e) => json!({"reference_prove": "ok", "library_decode": format!("{:?}", e)}),
+                    Ok(p) => {
+                        let mut ts = vec![transcripts[i].clone()];
+                        let r = catch_unwind(AssertUnwindSafe(|| RangeProof::verify_batch(&mut ts, &[mem.statement.clone()], &[p], VerifyAction::RecoverAndVerify)));
+                        match r {
+                            Ok(Ok(masks)) => json!({"reference_prove": "ok", "library_verify": "ok", "masks": masks_json(&masks),
+                                "expected_mask": if mem.statement.seed_nonce.is_some() { json!(mem.blindings[0].iter().map(env::scalar_id).collect::<Vec<_>>()) } else { Value::Null },
+                                "len": bytes.len()}),
+                            Ok(Err(e)) => json!({"reference_prove": "ok", "library_verify": format!("{:?}", e)}),
+                            Err(_) => json!({"reference_prove": "ok", "library_verify": "panic"}),
+                        }
+                    },
+                },
+            };
+            outv.push(o);
+        }
+        return json!({"members": members.iter().map(|m| m.info.clone()).collect::<Vec<_>>(), "prove": prove_out, "reference_prover": outv, "verify": Value::Null});
+    }
     let members_info: Vec<Value> = members.iter().map(|m| m.info.clone()).collect();
     if !all_proved || cfg["prove_only"].as_bool().unwrap_or(false) {
         return json!({"members": members_info, "prove": prove_out, "verify": Value::Null, "hook": hook_json()});
